@@ -34,11 +34,6 @@ os.environ["SYNETUNE_FOLDER"] = _TMP_ROOT  # must be set before syne_tune is imp
 
 import numpy as np  # noqa: E402
 
-try:  # numpy >= 2 removed np.NaN; syne_tune/experiments/visualization/aggregate_results.py:21 still uses it as
-    np.NaN  # a default argument, which makes `import syne_tune.experiments` fail. Harness-side shim only.
-except AttributeError:  # pragma: no cover
-    np.NaN = np.nan
-
 import pandas as pd  # noqa: E402
 
 from common import q, lst, natlit, zlit, blit, optlit  # noqa: E402
@@ -567,8 +562,31 @@ def observe_best(ts, names, mode, backend_cfgs):
     return bq, tq
 
 
-def observe_exp(df, names, mode, path):
-    from syne_tune.experiments.experiment_result import ExperimentResult
+_EXPERIMENTS = {}
+
+
+def experiments_module(ctx):
+    """syne_tune.experiments (load_experiment, ExperimentResult), or None when it cannot be imported: then the
+    table cannot be read back at all, which is reported as a violation of the property"""
+    if "mod" not in _EXPERIMENTS:
+        try:
+            with quiet():
+                from syne_tune.experiments import load_experiment
+                from syne_tune.experiments.experiment_result import ExperimentResult
+            _EXPERIMENTS["mod"] = SimpleNamespace(load_experiment=load_experiment, ExperimentResult=ExperimentResult)
+        except Exception as e:  # noqa: BLE001
+            _EXPERIMENTS["mod"] = None
+            ctx.violation("property", "disk: reading the table back is impossible, `from syne_tune.experiments import "
+                          "load_experiment` fails: %s: %s" % (type(e).__name__, e), case=dict(kind="import"),
+                          signature=dict(component="syne_tune.experiments", defect="import_fails"))
+    return _EXPERIMENTS["mod"]
+
+
+def observe_exp(ctx, df, names, mode, path):
+    mod = experiments_module(ctx)
+    if mod is None:
+        return []
+    ExperimentResult = mod.ExperimentResult
     er = ExperimentResult(name="c17", results=df, metadata=dict(metric_names=list(names), metric_mode=copy.copy(mode)),
                           tuner=None, path=Path(path))
     return exp_queries(er, names)
@@ -623,6 +641,9 @@ def build_case(tb, wallclock, events, rows, history, overall, per_trial, backend
                 bq_t, tq_t, lst([dict_term(tb, r) for r in table]), eq_t))
 
 
+SKIP_DISK = object()
+
+
 def property_checks(ctx, case, kind, deliveries, rows, wallclock, df, handed, overall, per_trial, names, mode, bq, tq,
                     table, eqs, sched=None):
     """independent checker; every failure is a `property` violation with a structural signature"""
@@ -636,7 +657,7 @@ def property_checks(ctx, case, kind, deliveries, rows, wallclock, df, handed, ov
     why = check_rows(deliveries, rows, wallclock)
     if why:
         bad("rows", why)
-    why = check_disk(rows, df)
+    why = None if df is SKIP_DISK else check_disk(rows, df)
     if why:
         bad("disk", why)
     why = check_stats(handed, overall, per_trial)
@@ -787,7 +808,7 @@ def run_seq(ctx, spec, workdir):
     per_trial = {int(t): stats_obs(s) for t, s in ts.trial_metric_statistics.items()}
     bq, tq = observe_best(ts, names, mode, backend_cfgs)
     table = table_rows(df) if df is not None else []
-    eqs = observe_exp(df, names, mode, workdir) if df is not None and len(df.columns) else []
+    eqs = observe_exp(ctx, df, names, mode, workdir) if df is not None and len(df.columns) else []
     return dict(deliveries=deliveries, events=events, handed=handed, history=history, rows=rows, df=df,
                 overall=overall, per_trial=per_trial, backend_cfgs=backend_cfgs, bq=bq, tq=tq, table=table, eqs=eqs,
                 stores=list(cb.store_sizes), arg_untouched=prefix_ok)
@@ -800,6 +821,386 @@ def seq_nontrivial(spec, obs):
     odd = any(v is None or isinstance(v, str) or isnan(v) or (isinstance(v, float) and math.isinf(v))
               for _, r in obs["handed"] for v in r.values())
     return len(obs["deliveries"]) >= 2 and len(obs["per_trial"]) >= 2 and (tie or odd)
+
+
+# --------------------------------------------------------------------------
+# run cases: whole Tuner.run() with a harness-side in-memory backend
+# --------------------------------------------------------------------------
+def make_run_classes():
+    from syne_tune.backend.trial_backend import TrialBackend
+    from syne_tune.backend.trial_status import Status
+    from syne_tune.optimizer.scheduler import TrialScheduler, TrialSuggestion, SchedulerDecision
+    from syne_tune.tuner_callback import TunerCallback
+    from syne_tune.tuning_status import TuningStatus
+
+    class ScriptedBackend(TrialBackend):
+        """In-memory workers. Trial i reports scripts[i] (list of metric dicts), a few reports per poll
+        (chunks, cycled); it stops at its script's end or at config[limit_attr] epochs; then it is
+        Completed, or Failed if outcomes[i] == 'fail'. Paused trials continue where they stopped."""
+
+        def __init__(self, scripts, chunks, outcomes, limit_attr=None):
+            super().__init__()
+            self.scripts, self.chunks, self.outcomes, self.limit_attr = scripts, chunks, outcomes, limit_attr
+            self.poll = 0
+            self.stamp = 0.0
+            self.limit = {}
+
+        def _schedule(self, trial_id, config):
+            lim = len(self.scripts[trial_id % len(self.scripts)])
+            if self.limit_attr is not None and self.limit_attr in config:
+                lim = min(lim, int(config[self.limit_attr]))
+            self.limit[trial_id] = lim
+
+        def _all_trial_results(self, trial_ids):
+            out = []
+            for tid in trial_ids:
+                tr = self._trial_dict[tid]
+                if tr.status == Status.in_progress:
+                    script = self.scripts[tid % len(self.scripts)]
+                    k = self.chunks[self.poll % len(self.chunks)]
+                    self.poll += 1
+                    for _ in range(k):
+                        if len(tr.metrics) >= self.limit[tid]:
+                            break
+                        self.stamp += 1.0
+                        rep = dict(script[len(tr.metrics)])
+                        rep["epoch"] = len(tr.metrics) + 1
+                        rep["st_worker_timestamp"] = self.stamp
+                        tr.metrics.append(rep)
+                    fail_at = self.outcomes[tid % len(self.outcomes)]
+                    if isinstance(fail_at, int) and len(tr.metrics) >= fail_at:
+                        tr.status = Status.failed
+                    elif len(tr.metrics) >= self.limit[tid] and len(tr.metrics) > 0:
+                        tr.status = Status.completed
+                out.append(tr)
+            return out
+
+        def _pause_trial(self, trial_id, result):
+            pass
+
+        def _resume_trial(self, trial_id):
+            pass
+
+        def _stop_trial(self, trial_id, result):
+            self._trial_dict[trial_id].status = Status.stopped
+
+        def busy_trial_ids(self):
+            return [(t, tr.status) for t, tr in self._trial_dict.items() if tr.status == Status.in_progress]
+
+        def stdout(self, trial_id):
+            return []
+
+        def stderr(self, trial_id):
+            return []
+
+        def copy_checkpoint(self, src_trial_id, tgt_trial_id):
+            pass
+
+        def delete_checkpoint(self, trial_id):
+            pass
+
+        def entrypoint_path(self):
+            return Path("scripted_worker.py")
+
+        def set_entrypoint(self, entry_point):
+            pass
+
+        def current_configs(self):
+            return {int(t): dict(tr.config) for t, tr in self._trial_dict.items()}
+
+    class ScriptedScheduler(TrialScheduler):
+        """decisions and suggestions from a script: several metrics with their own modes, STOP/PAUSE decisions,
+        paused trials resumed with a changed configuration"""
+
+        def __init__(self, names, mode, configs, decisions, resume_configs):
+            super().__init__(config_space={})
+            self.names, self.mode = list(names), mode
+            self.configs, self.decisions, self.resume_configs = list(configs), list(decisions), list(resume_configs)
+            self.n_res = 0
+            self.paused = []
+            self.n_suggest = 0
+
+        def suggest(self, trial_id):
+            self.n_suggest += 1
+            if self.paused and self.n_suggest % 2 == 0:
+                t = self.paused.pop(0)
+                cfg = self.resume_configs[t % len(self.resume_configs)]
+                return TrialSuggestion.resume_suggestion(trial_id=t, config=None if cfg is None else dict(cfg))
+            if trial_id < len(self.configs):
+                return TrialSuggestion.start_suggestion(dict(self.configs[trial_id]))
+            if self.paused:
+                t = self.paused.pop(0)
+                return TrialSuggestion.resume_suggestion(trial_id=t, config=None)
+            return None
+
+        def on_trial_result(self, trial, result):
+            d = self.decisions[self.n_res % len(self.decisions)]
+            self.n_res += 1
+            if d == "PAUSE":
+                self.paused.append(trial.trial_id)
+            return {"CONTINUE": SchedulerDecision.CONTINUE, "STOP": SchedulerDecision.STOP,
+                    "PAUSE": SchedulerDecision.PAUSE}[d]
+
+        def metric_names(self):
+            return list(self.names)
+
+        def metric_mode(self):
+            return copy.copy(self.mode)
+
+    class RecordingScheduler(TrialScheduler):
+        """delegates everything to the real scheduler; records what is delivered to it and its decisions"""
+
+        def __init__(self, inner):
+            super().__init__(config_space=inner.config_space)
+            self.inner = inner
+            self.delivered = []
+
+        def suggest(self, trial_id):
+            return self.inner.suggest(trial_id)
+
+        def on_trial_add(self, trial):
+            return self.inner.on_trial_add(trial)
+
+        def on_trial_error(self, trial):
+            return self.inner.on_trial_error(trial)
+
+        def on_trial_result(self, trial, result):
+            before = dict(result)
+            decision = self.inner.on_trial_result(trial, result)
+            self.delivered.append(dict(trial_id=int(trial.trial_id), result=before, decision=decision,
+                                       config=dict(trial.config)))
+            return decision
+
+        def on_trial_complete(self, trial, result):
+            return self.inner.on_trial_complete(trial, result)
+
+        def on_trial_remove(self, trial):
+            return self.inner.on_trial_remove(trial)
+
+        def metric_names(self):
+            return self.inner.metric_names()
+
+        def metric_mode(self):
+            return self.inner.metric_mode()
+
+        def metadata(self):
+            return self.inner.metadata()
+
+        def is_multiobjective_scheduler(self):
+            return self.inner.is_multiobjective_scheduler()
+
+    class Recorder(TunerCallback):
+        def __init__(self):
+            self.handed, self.statuses, self.loops = [], [], 0
+
+        def on_fetch_status_results(self, trial_status_dict, new_results):
+            self.handed.extend((int(t), dict(r)) for t, r in new_results)
+
+        def on_trial_result(self, trial, status, result, decision):
+            self.statuses.append(status)
+
+        def on_loop_end(self):
+            self.loops += 1
+
+    class RecordingStatus(TuningStatus):
+        def __init__(self, metric_names):
+            super().__init__(metric_names)
+            self.calls = []
+
+        def update(self, trial_status_dict, new_results):
+            self.calls.append(([int(t) for t in trial_status_dict.keys()], [(int(t), dict(r)) for t, r in new_results]))
+            super().update(trial_status_dict, new_results)
+
+    return SimpleNamespace(ScriptedBackend=ScriptedBackend, ScriptedScheduler=ScriptedScheduler,
+                           RecordingScheduler=RecordingScheduler, Recorder=Recorder, RecordingStatus=RecordingStatus)
+
+
+def gen_run_spec(rng, idx):
+    kind = rng.choice(["fifo", "fifo", "hb_stopping", "hb_promotion", "scripted", "scripted"])
+    if kind == "scripted":
+        k = rng.randint(1, 3)
+    elif kind == "fifo":
+        k = rng.randint(1, 2)
+    else:
+        k = 1
+    names = ["m%d" % i for i in range(k)]
+    if k == 1:
+        mode = rng.choice(["min", "max"])
+    else:
+        mode = [rng.choice(["min", "max"]) for _ in names]
+        if kind == "scripted" and rng.random() < 0.3:
+            mode = rng.choice(["min", "max"])
+    styles = [rng.choice(STYLES) for _ in names]
+    if kind.startswith("hb"):
+        styles[0] = rng.choice(["grid", "float", "int"])  # the rung rule needs comparable numbers
+    elif kind == "fifo":  # FIFOScheduler formats its target metrics as floats: numbers only (NaN, inf allowed)
+        styles = [rng.choice(["grid", "int", "float", "nan", "inf"]) for _ in names]
+    aux_style = rng.choice(["mixed", "str", "nan", "grid"])  # an extra reported value that is no target metric
+    n_scripts = rng.randint(3, 7)
+    scripts = []
+    for _ in range(n_scripts):
+        n_rep = rng.randint(1, 9 if kind.startswith("hb") else 5)
+        reps = []
+        for _ in range(n_rep):
+            rep = {}
+            for j, (nm, sty) in enumerate(zip(names, styles)):
+                if kind != "scripted" or rng.random() < 0.9:
+                    rep[nm] = gen_value(rng, sty)
+            if rng.random() < 0.7:
+                rep["aux"] = gen_value(rng, aux_style)
+            reps.append(rep)
+        scripts.append(reps)
+    outcomes = [rng.choice(["ok"] * 5 + [0, 1, 2]) for _ in range(n_scripts)]
+    spec = dict(kind=kind, name="c17-run-%d" % idx, names=names, mode=mode, styles=styles, scripts=scripts,
+                chunks=[rng.randint(0, 3) for _ in range(rng.randint(1, 5))], outcomes=outcomes,
+                n_workers=rng.randint(1, 3), seed=rng.randint(0, 10 ** 6), rui=rng.choice([-1, 0, 10.0]),
+                max_results=rng.randint(3, 25), max_loops=rng.randint(10, 60))
+    if kind == "scripted":
+        hps = HP_ALL[:rng.randint(1, 3)]
+        spec["configs"] = [gen_cfg(rng, hps) for _ in range(rng.randint(1, 6))]
+        spec["decisions"] = [rng.choice(["CONTINUE"] * 4 + ["STOP", "PAUSE", "PAUSE"]) for _ in range(rng.randint(1, 9))]
+        spec["resume_configs"] = [rng.choice([None, gen_cfg(rng, hps)]) for _ in range(3)]
+    return spec
+
+
+def build_scheduler(spec):
+    from syne_tune.config_space import uniform, randint, choice
+    from syne_tune.optimizer.schedulers.fifo import FIFOScheduler
+    from syne_tune.optimizer.schedulers.hyperband import HyperbandScheduler
+    kind = spec["kind"]
+    names, mode = spec["names"], spec["mode"]
+    metric = names[0] if len(names) == 1 else list(names)
+    if kind == "fifo":
+        space = {"lr": uniform(0.0, 1.0), "bs": randint(1, 64), "opt": choice(["adam", "sgd"])}
+        return FIFOScheduler(space, searcher="random", metric=metric, mode=mode, random_seed=spec["seed"]), None
+    if kind == "hb_stopping":
+        space = {"lr": uniform(0.0, 1.0), "bs": randint(1, 64)}
+        return HyperbandScheduler(space, type="stopping", searcher="random", metric=metric, mode=mode,
+                                  resource_attr="epoch", max_t=9, grace_period=1, reduction_factor=3,
+                                  random_seed=spec["seed"]), None
+    if kind == "hb_promotion":
+        space = {"lr": uniform(0.0, 1.0), "epochs": 9}
+        return HyperbandScheduler(space, type="promotion", searcher="random", metric=metric, mode=mode,
+                                  resource_attr="epoch", max_resource_attr="epochs", grace_period=1,
+                                  reduction_factor=3, random_seed=spec["seed"]), "epochs"
+    cls = make_run_classes()
+    return cls.ScriptedScheduler(names, mode, spec["configs"], spec["decisions"], spec["resume_configs"]), None
+
+
+def run_whole(ctx, spec):
+    from syne_tune import Tuner
+    from syne_tune.tuning_status import print_best_metric_found
+    cls = make_run_classes()
+    RecordingStore = make_recording_callback()
+    mod = experiments_module(ctx)
+    names, mode = spec["names"], spec["mode"]
+    with quiet():
+        inner, limit_attr = build_scheduler(spec)
+        sched = cls.RecordingScheduler(inner)
+        backend = cls.ScriptedBackend(spec["scripts"], spec["chunks"], spec["outcomes"], limit_attr)
+        store, rec = RecordingStore(add_wallclock_time=True), cls.Recorder()
+
+        def stop(status):
+            return status.overall_metric_statistics.count >= spec["max_results"] or rec.loops >= spec["max_loops"]
+
+        tuner = Tuner(trial_backend=backend, scheduler=sched, stop_criterion=stop, n_workers=spec["n_workers"],
+                      sleep_time=0, results_update_interval=spec["rui"], print_update_interval=1e9, max_failures=1000,
+                      tuner_name=spec["name"], suffix_tuner_name=False, save_tuner=False, callbacks=[store, rec])
+        tuner.tuning_status = cls.RecordingStatus(metric_names=list(names))
+        tuner.run()
+        ts = tuner.tuning_status
+        rows = [dict(r) for r in store.results]
+        deliveries = [dict(d, status=st) for d, st in zip(sched.delivered, rec.statuses)]
+        n_delivered = (len(sched.delivered), len(rec.statuses))
+        overall = stats_obs(ts.overall_metric_statistics)
+        per_trial = {int(t): stats_obs(s) for t, s in ts.trial_metric_statistics.items()}
+        backend_cfgs = backend.current_configs()
+        bq, tq = [], []
+        for m in queries_for(names):
+            name, md = mode_of(names, mode, m)
+            b = print_best_metric_found(ts, [name], md)
+            bq.append((m, None if b is None else (int(b[0]), plain(b[1]))))
+            try:
+                t, cfg = tuner.best_config(m)
+                tq.append((m, (int(t), dict(cfg))))
+            except TypeError:
+                tq.append((m, None))
+        df, eqs = None, []
+        if mod is not None:
+            er = mod.load_experiment(spec["name"], download_if_not_found=False)
+            df = er.results
+            if df is not None and len(df.columns):
+                eqs = exp_queries(er, names)
+                meta_ok = er.metadata is not None and er.metadata.get("metric_names") == list(names) \
+                    and er.metadata.get("metric_mode") == mode
+            else:
+                meta_ok = True
+        else:
+            meta_ok = True
+    events = []
+    stores = list(store.store_sizes)
+    for i, (dv, row) in enumerate(zip(deliveries, rows)):
+        clock = row.get("st_tuner_time", 0.0) if "st_tuner_time" not in dv["result"] else 0.0
+        events.append(dict(dv, clock=clock if isinstance(clock, float) else 0.0, fire=(i + 1) in stores[:-1]))
+    table = table_rows(df) if df is not None else []
+    return dict(deliveries=deliveries, events=events, handed=list(rec.handed), history=list(ts.calls), rows=rows, df=df,
+                overall=overall, per_trial=per_trial, backend_cfgs=backend_cfgs, bq=bq, tq=tq, table=table, eqs=eqs,
+                stores=stores, n_delivered=n_delivered, meta_ok=meta_ok)
+
+
+def run_cases(ctx, replay):
+    rng = ctx.rng
+    if replay and replay.get("kind") == "run":
+        specs = [replay["spec"]]
+    elif replay:
+        return
+    else:
+        specs = [gen_run_spec(rng, i) for i in range(ctx.n(60, 800))]
+    terms, meta = [], []
+    for i, spec in enumerate(specs):
+        case = dict(kind="run", spec=spec)
+        obs = run_whole(ctx, spec)
+        shutil.rmtree(os.path.join(_TMP_ROOT, spec["name"]), ignore_errors=True)
+        sched = spec["kind"]
+        resumed_changed = any(obs["deliveries"][a]["trial_id"] == obs["deliveries"][b]["trial_id"]
+                              and obs["deliveries"][a]["config"] != obs["deliveries"][b]["config"]
+                              for a in range(len(obs["deliveries"])) for b in range(a + 1, len(obs["deliveries"])))
+        ctx.count(("run", spec), nontrivial=len(obs["rows"]) >= 3 and len(obs["per_trial"]) >= 2)
+        ctx.h("run_scheduler", sched)
+        ctx.h("run_rows", min(len(obs["rows"]) // 5 * 5, 30))
+        ctx.h("run_resumed_with_changed_config", resumed_changed)
+        ctx.h("run_undelivered_results", len(obs["handed"]) > len(obs["rows"]))
+        ctx.h("run_trials_without_results", sum(1 for s in obs["per_trial"].values() if s["count"] == 0) > 0)
+        if obs["n_delivered"][0] != obs["n_delivered"][1]:
+            ctx.violation("property", "rows: scheduler received %d results, callbacks %d" % obs["n_delivered"],
+                          case=case, signature=dict(part="rows", kind="run", scheduler=sched, defect="delivery_count"))
+        if not obs["meta_ok"]:
+            ctx.violation("property", "best_experiment: metadata.json does not hold the scheduler's metric names/modes",
+                          case=case, signature=dict(part="best_experiment", kind="run", scheduler=sched,
+                                                    defect="metadata"))
+        if obs["df"] is None and experiments_module(ctx) is not None and obs["rows"]:
+            ctx.violation("property", "disk: load_experiment found no results table for %d rows" % len(obs["rows"]),
+                          case=case, signature=dict(part="disk", kind="run", scheduler=sched, defect="no_table"))
+        property_checks(ctx, case, "run", obs["deliveries"], obs["rows"], True,
+                        obs["df"] if experiments_module(ctx) is not None else SKIP_DISK,
+                        obs["handed"], obs["overall"], obs["per_trial"], spec["names"], spec["mode"], obs["bq"],
+                        obs["tq"], obs["table"], obs["eqs"], sched=sched)
+        if (obs["stores"] or [0])[-1] != len(obs["rows"]):
+            ctx.violation("property", "disk: last store wrote %r rows of %d" % (obs["stores"][-1:], len(obs["rows"])),
+                          case=case, signature=dict(part="disk", kind="run", scheduler=sched,
+                                                    defect="final_store_missing"))
+        tb = Tables()
+        terms.append(build_case(tb, True, obs["events"], obs["rows"], obs["history"], obs["overall"], obs["per_trial"],
+                                obs["backend_cfgs"], spec["names"], spec["mode"], obs["bq"], obs["tq"], obs["table"],
+                                obs["eqs"]))
+        meta.append(case)
+        if len(obs["rows"]) >= 3 and not getattr(ctx, "_c17_run_sampled", False):
+            ctx._c17_run_sampled = True
+            ctx.sample(dict(kind="run", scheduler=sched, names=spec["names"], mode=spec["mode"],
+                            n_rows=len(obs["rows"]), n_handed=len(obs["handed"]),
+                            best_config=[(m, repr(b)) for m, b in obs["tq"]],
+                            experiment_best=[(m, repr(c)) for m, c in obs["eqs"]]))
+    report_model_mismatches(ctx, "run", terms, meta)
 
 
 # --------------------------------------------------------------------------
@@ -816,7 +1217,11 @@ def run(ctx, replay=None):
                 "delivered results, 2 trials and a tie or a NaN/inf/non-numeric value (seq), or a run with >= 3 rows "
                 "and >= 2 trials (run); distinct by content hash")
     try:
+        experiments_module(ctx)
+        if replay and replay.get("kind") == "import":
+            return
         seq_cases(ctx, replay)
+        run_cases(ctx, replay)
     finally:
         shutil.rmtree(_TMP_ROOT, ignore_errors=True)
         os.makedirs(_TMP_ROOT, exist_ok=True)
